@@ -154,6 +154,7 @@ def run(tier: str, opts: dict) -> int:
     all_tasks = inproc + [t for S in by_schema for t in by_schema[S]]
     all_res = res + res_before
     n_same = n_exc = 0
+    new_pins, unclassified = {}, []
     seen_sig = set()
     nontrivial = set()
     for t, r in zip(all_tasks, all_res):
@@ -165,9 +166,26 @@ def run(tier: str, opts: dict) -> int:
         if r["same"]:
             n_same += 1
             continue
+        key = f"{mech}|{S}|{dialect}|{orig}"
+        dg = common.digest([r["got"], r["exp"]])
+        if opts.get("regen_pins"):
+            only_export = "exception" not in r["got"] and "exception" not in r["exp"] and all(r["got"].get(k) == r["exp"].get(k) for k in ("source", "target", "intermediate", "pairs"))
+            if only_export and "(SELECT" in orig.upper():
+                new_pins[key] = ["F-C14-correlated-select-list-subquery-phantom-table", dg]
+            else:
+                unclassified.append((key, {"obs": r["got"], "delta": {}}))
+            continue
+        fid = rep.findings.pinned(key, dg)
+        if fid:
+            rep.known_finding(fid)
+            continue
         diff = [k for k in r["exp"] if r["got"].get(k) != r["exp"].get(k)] if "exception" not in r["got"] and "exception" not in r["exp"] else ["exception"]
         rep.violation("default-schema-differs-from-explicit-qualification", {"sql": orig, "qualified_sql": qual, "dialect": dialect, "default_schema": S, "mechanism": mech},
                       {"differs_in": diff, "observed": {k: r["got"].get(k) for k in diff[:3]}, "expected": {k: r["exp"].get(k) for k in diff[:3]}})
+    if opts.get("regen_pins"):
+        from vmc.c01 import _write_pins
+
+        return _write_pins("C14", new_pins, unclassified, replace=(tier == "thorough"))
     for t in all_tasks[:: max(1, len(all_tasks) // 5)][:5]:
         rep.sample({"sql": t[0], "qualified": t[1], "dialect": t[2], "default_schema": t[3], "mechanism": t[4]})
     rep.coverage.update(
